@@ -51,6 +51,13 @@ def oz_step(E, N, closure, flag, domain_from):
         E.claim_eq('S=1+rho*h[k%d]' % j, Sn.data[j, 0, 0], 1.0 + rho * h)
         E.claim_eq('S*(1-rho*c)=1[k%d]' % j, Sn.data[j, 0, 0] * (1.0 - rho * c), 1.0)
         E.claim_eq('S_unnormalised=rho*S[k%d]' % j, Su.data[j, 0, 0], rho * (1.0 + rho * h))
+    # g(r) asked AFTER S(k) (which leaves totalCorr in Fourier space): g = FT^-1(h) + 1
+    from .common import oracle_real
+    hk = [P.totalCorr.data[j, 0, 0] for j in range(N)]
+    g = pyPRISM.calculate.pair_correlation(P)
+    hr = oracle_real(E, B.dr, N, hk)
+    for i in range(N):
+        E.claim_eq('g=FT^-1(h)+1-after-S(k)[%d]' % i, g.data[i, 0, 0], hr[i] + 1.0)
     E.claim('canary-density-squared', E.eq(P.totalCorr.data[0, 0, 0] * (1.0 - rho * rho * P.directCorr.data[0, 0, 0]), P.directCorr.data[0, 0, 0]), canary=True)
 
 
